@@ -247,25 +247,37 @@ def sockReqs (c : Conf) : List String → List String → Option (List String ×
   | _, _ => none
 
 def stepSock (ins impl : List String) : Option String := do
-  let (m, rest) ← parseConf ins
-  match m with
+  let (l, rest) ← parseLists ins
+  match prepare l.al l.bl l.hosts with
   | .error _ => pure (verdict (impl.head? == some "starterr") none "starterr")
-  | .ok c =>
+  | .ok pr =>
+    let c : Conf := { allowed := l.al, blocked := l.bl, access := pr.access, srvName := l.srv, strict := l.strict }
     match rest with
-    | k :: reqs =>
+    | _reconf :: k :: reqs =>
+      -- (`Reconfigure(nil)` = `Prepare` once more on the stored configuration:
+      -- the model's lists are already the defaulted ones, nothing changes)
       if reqs.length ≠ 10 * (← k.toNat?) then none
-      let (outs, nf, spec) ← sockReqs c reqs impl
-      let out := "\t".intercalate (outs ++ [toString nf])
+      -- the observation ends with: filtered "H" n reported-host*n
+      let hIdx := impl.idxOf "H"
+      let implReq := impl.take hIdx
+      let implHosts ← (impl.drop (hIdx + 2)).mapM hexDecode
+      let (outs, nf, spec) ← sockReqs c reqs implReq
+      let hostsOut := ["H", toString pr.reportedHosts.length] ++ pr.reportedHosts.map hexEncode
+      let out := "\t".intercalate (outs ++ [toString nf] ++ hostsOut)
       -- the filtering hook may run more than once per processed request: compare "≥"
-      let implF := impl.getLast?.bind String.toNat?
-      let agree := impl.dropLast == outs &&
+      let implF := implReq.getLast?.bind String.toNat?
+      let agree := implReq.dropLast == outs && impl.drop hIdx == hostsOut &&
         (match implF with | some f => (nf == 0 && f == 0) || (nf > 0 && f ≥ nf) | none => false)
-      let spec := spec.orElse fun _ =>
+      -- the requests were judged against the engine list the property implies
+      -- (the configured list, or the default names when it is empty; the oracle
+      -- bits come from it); what the server REPORTS as blocked must be that list
+      let spec := (if implHosts != initDefaultHosts l.hosts then some "C03.reported-blocked-hosts" else none).orElse
+        fun _ => spec.orElse fun _ =>
         match implF with
         | some f => if nf == 0 && f != 0 then some "C03.refused-request-was-filtered" else none
         | none => none
       pure (verdict agree spec out)
-    | [] => none
+    | _ => none
 
 def step (st : State) (line : String) : State × String :=
   let fs := splitTab line
